@@ -244,7 +244,7 @@ impl Builder {
                     let (s, t) = sub.concat(v, level, true);
                     sub.nfa.start = s;
                     sub.nfa.accept.insert(t);
-                    let d = sub.nfa.determinize().minimize();
+                    let d = determinize_merging_readings(&sub.nfa).minimize();
                     let canon = d.canon();
                     self.words.insert(canon.clone(), d);
                     let a = self.nfa.add_state();
@@ -306,13 +306,80 @@ impl Builder {
     }
 }
 
+/// what a typed word is compared with: items with the same key accept exactly the same words
+fn reading_key(s: &Sym) -> (u8, String) {
+    match s {
+        Sym::Lit { text, .. } => (0, text.clone()),
+        Sym::Cmd { text, .. } => (1, text.clone()),
+        Sym::Word { canon, .. } => (2, canon.clone()),
+        Sym::Any => (3, String::new()),
+    }
+}
+
+/// Subset construction in which items that accept the same words count as one expectation (C09): from a
+/// set of positions, every item present leads to the union of what follows any item with the same key.
+/// Labels (description, level) stay on the edges: they say what is offered, not what is matched.
+pub fn determinize_merging_readings(nfa: &Nfa<Sym>) -> Ldfa {
+    use std::collections::HashMap;
+    let closure = |set: &BTreeSet<usize>| -> BTreeSet<usize> {
+        let mut out = set.clone();
+        let mut stack: Vec<usize> = set.iter().copied().collect();
+        while let Some(q) = stack.pop() {
+            for &r in &nfa.eps[q] {
+                if out.insert(r) {
+                    stack.push(r);
+                }
+            }
+        }
+        out
+    };
+    let start = closure(&BTreeSet::from([nfa.start]));
+    let mut ids: HashMap<BTreeSet<usize>, usize> = HashMap::new();
+    let mut sets = vec![start.clone()];
+    ids.insert(start, 0);
+    let mut trans: Vec<BTreeMap<Sym, usize>> = vec![];
+    let mut accept = vec![];
+    let mut i = 0;
+    while i < sets.len() {
+        let cur = sets[i].clone();
+        accept.push(cur.iter().any(|q| nfa.accept.contains(q)));
+        let mut by_key: BTreeMap<(u8, String), (BTreeSet<Sym>, BTreeSet<usize>)> = BTreeMap::new();
+        for &q in &cur {
+            for (s, r) in &nfa.trans[q] {
+                let e = by_key.entry(reading_key(s)).or_default();
+                e.0.insert(s.clone());
+                e.1.insert(*r);
+            }
+        }
+        let mut row = BTreeMap::new();
+        for (_, (syms, tgt)) in by_key {
+            let c = closure(&tgt);
+            let id = match ids.get(&c) {
+                Some(id) => *id,
+                None => {
+                    let id = sets.len();
+                    ids.insert(c.clone(), id);
+                    sets.push(c);
+                    id
+                }
+            };
+            for s in syms {
+                row.insert(s, id);
+            }
+        }
+        trans.push(row);
+        i += 1;
+    }
+    Pdfa { start: 0, accept, trans }
+}
+
 /// ⟦G⟧_S as a minimal labelled DFA (plus the within-word automata it refers to)
 pub fn build(x: &X) -> Built {
     let mut b = Builder { nfa: Nfa::new(), words: BTreeMap::new() };
     let (s, t) = b.build(x, 0, false);
     b.nfa.start = s;
     b.nfa.accept.insert(t);
-    let dfa = b.nfa.determinize().minimize();
+    let dfa = determinize_merging_readings(&b.nfa).minimize();
     Built { dfa, words: b.words }
 }
 
